@@ -5,15 +5,20 @@ harness binaries against the current tree (no PCH needed: only au/utility/*.hh i
 enumerations out over processes, collects `S` (stats) / `V` (violation) / `C` (wrap collision) /
 `D` (replica divergence) lines and turns them into evidence, violations and replay artefacts.
 """
+import functools
 import json
 import math
 import os
+import re
+import signal
 import subprocess
 from fractions import Fraction as Fr
 
 from . import core, psx, sweep34
 
 SAN = ["-fsanitize=unsigned-integer-overflow", "-fsanitize-recover=all", "-DC12_SANITIZED=1"]
+# is_prime / find_prime_factor under clang's UB sanitizer (signed overflow, shifts, bounds, ...), recover mode
+UBF = ["-fsanitize=undefined", "-fno-sanitize=vptr,function", "-fsanitize-recover=all", "-DC12_UBCHECK=1"]
 UBENV = {"UBSAN_OPTIONS": "halt_on_error=0:print_stacktrace=0"}
 STUBS = {
     "sieve": ("c12_sieve.hh", "c12::sieve_main"),
@@ -58,8 +63,10 @@ BIG_PRIMES = [541, 547, 65521, 65537, 2147483647, 4294967291, 4294967311, 2 ** 6
               2 ** 63 - 25, 2 ** 64 - 59]
 
 
+@functools.lru_cache(maxsize=None)
 def py_factor(n):
-    """Canonical factorisation {p: e} by trial division below 2^17; the cofactor must be prime."""
+    """Canonical factorisation {p: e} by trial division below 2^17; the cofactor must be prime.
+    (memoised: callers treat the returned dict as read-only)"""
     f, d = {}, 2
     for p in BIG_PRIMES[2:]:       # grid construction primes (each verified by py_is_prime)
         while n % p == 0:
@@ -109,9 +116,12 @@ def run_bin(exe, args, timeout=7200, env=None):
     except subprocess.TimeoutExpired:
         raise core.InfraError("C12 harness timed out (possible non-termination in the code under "
                               "test): %s %s" % (exe, args))
-    if rc != 0 and not (rc == 86 and "trap-signal" in out):     # 86: a trap inside the code under test, reported as a V line
+    # 86: a trap or a non-returning call inside the code under test, reported by the harness as a V line
+    if rc != 0 and not (rc == 86 and ("trap-signal" in out or '-hang"' in out or '-trap"' in out)):
         raise core.InfraError("C12 harness %s %s failed rc=%d: %s" % (exe, args, rc, err[-1500:]))
     res = {}
+    if rc == 86:
+        res["ABORTED"] = [{"args": [str(a) for a in args]}]
     for line in out.split("\n"):
         if len(line) > 2 and line[1] == " " and line[2] == "{":
             try:
@@ -135,8 +145,17 @@ def merge(results):
 # violations
 
 
+HANG_KINDS = ("is_prime-hang", "factor-hang", "is_prime-trap", "factor-trap")
+
+
 def vkey(v):
     k = v["kind"]
+    if k in HANG_KINDS:
+        return "C12:%s:n=%s" % (k, v["n"])
+    if k == "ub-report":
+        return "C12:ub-report:fn=%s:n=%s" % (v["fn"], v["n"])
+    if k == "mod-hang":
+        return "C12:mod-hang:op=%s:a=%s:b=%s:n=%s" % (v["op"], v["a"], v["b"], v["n"])
     if k.startswith("is_prime"):
         return "C12:%s:cause=%s:n=%s" % (k, v.get("cause", "other"), v["n"])
     if k == "factor":
@@ -148,6 +167,19 @@ def vkey(v):
 
 def vwhat(v):
     k = v["kind"]
+    if k in HANG_KINDS:
+        fn = "is_prime (or one of its halves miller_rabin / strong_lucas / is_perfect_square)" \
+            if k.startswith("is_prime") else "find_prime_factor"
+        if k.endswith("-hang"):
+            return ("au::detail::%s did not return for n = %s within %s s of CPU time in that single call "
+                    "(non-termination; the slowest correct call takes milliseconds)" % (fn, v["n"], v.get("cpu_s")))
+        return "au::detail::%s trapped (signal %s) for n = %s" % (fn, v.get("signal"), v["n"])
+    if k == "ub-report":
+        return ("au::detail::%s(%s): clang's undefined-behaviour sanitizer reported %s time(s) during this "
+                "call (-fsanitize=undefined, recover mode, per-call attribution)" % (v["fn"], v["n"], v.get("reports")))
+    if k == "mod-hang":
+        return ("au::detail::%s(%s, %s, %s) did not return within %s s of CPU time (non-termination)" % (
+            v["op"], v["a"], v["b"], v["n"], v.get("cpu_s")))
     if k.startswith("is_prime"):
         s = ("au::detail::is_prime(%s) returned %s but n is %s (%s oracle)" % (
             v["n"], "true" if v["got"] else "false", "prime" if v["want"] else "composite",
@@ -178,6 +210,8 @@ class Collector:
         self.single = None
         self.cube = None
         self.cube_san = None
+        self.single_ub = None
+        self.slow_reproduced = 0
 
     def _single(self):
         if self.single is None:
@@ -187,10 +221,18 @@ class Collector:
     def reproduce(self, v):
         """Re-run the one case stand-alone (soundness rule 5)."""
         k = v["kind"]
-        if k.startswith("is_prime") or k == "factor":
+        if k == "ub-report" or (v.get("build") == "ub" and (k.startswith("is_prime") or k.startswith("factor"))):
+            # found by the clang -fsanitize=undefined build: reproduce with the same build (behaviour that
+            # rests on undefined behaviour differs between compilers)
+            if self.single_ub is None:
+                self.single_ub = must_build(self.run.wd, "single", core.CLANG14, UBF, tag="_ub")
+            r = run_bin(self.single_ub, ["prime", v["n"]], timeout=600, env=UBENV)
+            return [x for x in r.get("V", []) if x["kind"] == k and x.get("fn") == v.get("fn")]
+        if k.startswith("is_prime") or k.startswith("factor"):
+            # (the single binary carries the same watchdog, so a hang reproduces as a V line)
             r = run_bin(self._single(), ["prime", v["n"]], timeout=600)
             return [x for x in r.get("V", []) if x["kind"] == k]
-        if k in ("mod-value", "mod-wrap"):
+        if k in ("mod-value", "mod-wrap", "mod-hang"):
             hits = []
             if self.cube is None:
                 self.cube = must_build(self.run.wd, "modcube", tag="_rp")
@@ -207,7 +249,10 @@ class Collector:
             return
         self.seen[key] = v
         what = vwhat(v) + " [found by: %s]" % source
-        if len(self.seen) <= 25 and not self.reproduce(v):
+        slow = v["kind"].endswith("-hang")      # each stand-alone reproduction burns the watchdog interval
+        if slow:
+            self.slow_reproduced += 1
+        if len(self.seen) <= 25 and (not slow or self.slow_reproduced <= 3) and not self.reproduce(v):
             raise core.InfraError("violation did not reproduce stand-alone: %s" % key)
         rp = self.run.write_replay(key, {"kind": v["kind"], "case": v, "what": what,
                                          "source": source})
@@ -249,7 +294,7 @@ class SieveSweep:
                 continue
             (mode, lo, h, est), r = item
             for m in (1, 2, 4):
-                if mode & m:
+                if mode & m and "ABORTED" not in r:     # (a worker stopped by its watchdog did not finish)
                     self.done[m].append((lo, h))
             self.res.append(r)
             new.append(r)
@@ -310,11 +355,15 @@ def sieve_plan(limit_log2):
 # (2) structured 64-bit families
 
 
+FAMILY_ARGS = {"quick": [60, 16, 4, 8192], "thorough": [300, 64, 64, 65536]}
+FAMILY_P0 = {"quick": 100, "thorough": 20}
+
+
 def explore_families(run, col, exe, tier, do_factor, timeout):
-    args = [60, 16, 4, 8192] if tier == "quick" else [300, 64, 64, 65536]
+    args = FAMILY_ARGS[tier]
     np_ = core.NCPU * 2
-    m = merge(core.pmap(lambda p: run_bin(exe, [p, np_] + args + [int(do_factor)], timeout=timeout),
-                        range(np_)))
+    m = merge(core.pmap(lambda p: run_bin(exe, [p, np_] + args + [int(do_factor), FAMILY_P0[tier]],
+                                          timeout=timeout), range(np_)))
     col.add_all(m.get("V", []), "structured 64-bit families")
     fam = {}
     for s in m.get("S", []):
@@ -330,8 +379,37 @@ def explore_families(run, col, exe, tier, do_factor, timeout):
     both = (sum(d["primes"] for d in fam.values()) > 0) + (sum(d["composites"] for d in fam.values()) > 0)
     nontriv = len([1 for d in fam.values() if d["evals_prime"] > 0]) if both == 2 else 0
     return {"families": fam, "families_with_find_prime_factor": bool(do_factor),
-            "family_params": dict(zip(["W", "NEAR", "HARD", "PSPWIN"], args)),
+            "family_params": dict(zip(["W", "NEAR", "HARD", "PSPWIN", "P0"], args + [FAMILY_P0[tier]])),
             "family_samples": m.get("X", [])[:24]}, evals, nontriv
+
+
+def explore_ub(run, col, exe_fam_ub, exe_sieve_ub, tier, timeout):
+    """is_prime / find_prime_factor under clang -fsanitize=undefined (recover mode, report hook): the
+    structured families once more and two exhaustive windows [0, 2^a) and [2^32 - 2^b, 2^32).  Any
+    report attributed to a call of the code under test is a violation (kind ub-report)."""
+    quick = tier == "quick"
+    args, p0 = ([24, 4, 1, 1024], 400) if quick else (FAMILY_ARGS["quick"], FAMILY_P0["quick"])
+    np_ = core.NCPU * 2
+    jobs = [(exe_fam_ub, [p, np_] + args + [1, p0]) for p in range(np_)]
+    lo_top, hi_low, step = ((1 << 32) - (1 << 20), 1 << 22, 1 << 20) if quick else \
+                           ((1 << 32) - (1 << 24), 1 << 26, 1 << 22)
+    ranges = [(lo, lo + step) for lo in range(0, hi_low, step)] + \
+             [(lo, lo + step) for lo in range(lo_top, 1 << 32, step)]
+    jobs += [(exe_sieve_ub, [lo, h, 3]) for lo, h in ranges]
+    rs = core.pmap(lambda j: run_bin(j[0], j[1], timeout=timeout, env=UBENV), jobs)
+    m = merge(rs)
+    if len(m.get("H", [])) != len(jobs) or not all(h["hook_ok"] for h in m["H"]):
+        raise core.InfraError("UBSan report hook is not live in the sanitized families/sieve build")
+    for v in m.get("V", []):
+        v["build"] = "ub"
+    col.add_all(m.get("V", []), "families + sieve windows under clang -fsanitize=undefined")
+    st = m.get("S", [])
+    evals = sum(s.get("evals_prime", 0) + s.get("evals_factor", 0) for s in st)
+    cov = {"ub_sanitized_evals": evals, "ub_reports_attributed": sum(s.get("ub_reports", 0) for s in st),
+           "ub_sanitized_sieve_windows": [[lo, h] for lo, h in ranges][:2] + [[ranges[-1][0], ranges[-1][1]]],
+           "ub_sanitized_sieve_window_count": len(ranges), "ub_flags": UBF[:3],
+           "ub_family_params": dict(zip(["W", "NEAR", "HARD", "PSPWIN", "P0"], args + [p0]))}
+    return {"ub_sanitizer": cov}, evals, 0
 
 
 # ------------------------------------------------------------------------------------------------
@@ -356,16 +434,50 @@ def explore_modcube(run, col, exe, exe_san, tier):
            "modcube_mul_overflow_path": tot(sp, "mul_overflow_path"),
            "modcube_mul_fit_path": tot(sp, "mul_fit_path"),
            "modcube_pow_evals": tot(sp, "pow_evals"),
+           "modcube_lattice_evals": tot(sp, "lattice_evals"),
+           "modcube_lattice_overflow_path": tot(sp, "lattice_overflow_path"),
+           "modcube_lattice_overflow_path_rem_ge8": tot(sp, "lattice_overflow_rem_ge8"),
+           "modcube_lattice_overflow_path_n_above_2_63": tot(sp, "lattice_n_above_2_63"),
+           "modcube_lattice_alphabet": (
+               "per modulus n: a in cube operands + floor(n*i/32)+{-1,0,1} (i=1..31) + k*2^j (k=3,5,7; "
+               "j=0,4..60); per a: b = q*floor(n/a) + r, q in {1,2,3,4,7,8,15,16,17,2^8,2^16,..,2^48,"
+               "qmax/3,qmax/2,qmax-1,qmax}, r in {0..16, cs/2, cs-2, cs-1}, plus floor(n*i/32)+{-1,0,1}; "
+               "add_mod, sub_mod, mul_mod on every pair vs unsigned __int128"),
            "modcube_wrap_reports": tot(ss, "wraps")}
     nontriv = sum(1 for s in sp if s["mul_overflow_path"] > 0 and s["mul_fit_path"] > 0)
     return cov, cov["modcube_evals_plain"] + cov["modcube_evals_sanitized"], nontriv
 
 
 # ------------------------------------------------------------------------------------------------
-# (4) small-word replica of mod.hh  (MODEL-DIVERGENCE only)
+# (4) small-word replica of mod.hh.  A replica divergence itself is MODEL-DIVERGENCE only; but each one is
+# scaled to 64 bits and re-run through the real helper as an ordinary cube case (a violation if it fails).
 
 
-def explore_replica(run, tier):
+def scaled_cases(d, W):
+    """64-bit images of a W-bit divergence (op, a, b, n).  mul_mod's slow path is homogeneous under
+    (a, b, n) -> (a*2^s, b, n*2^s), s = 64 - W (same chunk size, same chunk count, scaled residues);
+    add/sub are homogeneous under scaling all three; the other enumerated shapes are tried as well."""
+    s_ = 64 - W
+    a, b, n, op = d["a"], d["b"], d["n"], d["op"]
+    fill = (1 << s_) - 1
+    shapes = [(a << s_, b, n << s_), (a << s_, b << s_, n << s_), (a, b << s_, n << s_),
+              ((a << s_) | fill, (b << s_) | fill, (n << s_) | fill), (a, b, n << s_), (a, b, n)]
+    out = []
+    for (x, y, m) in shapes:
+        if op == "pow_mod":
+            ok = m >= 2 and x < (1 << 64) and y < (1 << 64)
+        elif op == "half_mod_odd":
+            m |= 1
+            y = 0
+            ok = x < m
+        else:
+            ok = x < m and y < m
+        if ok and m < (1 << 64) and (op, x, y, m) not in out:
+            out.append((op, x, y, m))
+    return out
+
+
+def explore_replica(run, tier, col=None, cube=None, cube_san=None):
     cov = {}
     evals = 0
     for W in ([8] if tier == "quick" else [8, 10]):
@@ -385,6 +497,19 @@ def explore_replica(run, tier):
              "exhaustive": True}
         if m.get("D"):
             d["MODEL-DIVERGENCE"] = m["D"][:10]
+            if col is not None and cube is not None:
+                cases = []
+                for dv in sorted(m["D"], key=lambda x: json.dumps(x, sort_keys=True))[:24]:
+                    for c in scaled_cases(dv, W):
+                        if c not in cases:
+                            cases.append(c)
+                jobs = [(e, c) for c in cases for e in (cube, cube_san)]
+                rs = core.pmap(lambda j: run_bin(j[0], ["single"] + list(j[1]), timeout=120, env=UBENV), jobs)
+                vs = merge(rs).get("V", [])
+                col.add_all(vs, "W=%d replica divergence scaled to 64 bits" % W)
+                d["scaled_to_64_bit_cases"] = len(cases)
+                d["scaled_to_64_bit_violations"] = len(vs)
+                evals += len(jobs)
         cov["replica_W%d" % W] = d
         evals += d["triples_and_pow_evals"]
     return {"small_word_replica": cov}, evals
@@ -466,6 +591,13 @@ def explore_wrapsq(run, col, exe, budget, tag):
     m = merge(core.pmap(lambda p: run_bin(exe, [p, 0], timeout=3000), files))
     if not m.get("T") or not all(t["solver_selftest_ok"] for t in m["T"]):
         raise core.InfraError("2-adic square-root solver failed its brute-force self-test")
+    # a direct call of the internal helper is_perfect_square that hangs / traps is not judged by itself (the
+    # statement names is_prime / find_prime_factor): the same n goes through those, stand-alone
+    direct = [v for v in m.get("V", []) if v["kind"].startswith("is_perfect_square-")]
+    m["V"] = [v for v in m.get("V", []) if not v["kind"].startswith("is_perfect_square-")]
+    if direct:
+        r = run_bin(col._single(), ["prime"] + sorted(set(v["n"] for v in direct)), timeout=600)
+        m["V"] += r.get("V", [])
     col.add_all(m.get("V", []), "is_perfect_square wrap-collision search (Hensel lifting)")
     st = m.get("S", [])
     tot = lambda k: sum(s[k] for s in st)
@@ -495,6 +627,7 @@ def explore_wrapsq(run, col, exe, budget, tag):
                                  "iterate": c["actual_iterate"], "prime": c["prime"],
                                  "au_is_perfect_square": c["au_is_perfect_square"]} for c in colls],
         "wrap_solver_selftest_cases": m["T"][0]["cases"],
+        "wrap_workers_stopped_by_direct_is_perfect_square_hang": len(direct),
     }
     evals = tot("evals_prime") + tot("evals_factor") + tot("a_values")
     nontriv = (1 if tot("primes") and tot("composites") else 0) + len(colls)
@@ -514,7 +647,7 @@ def ct_pool(tier):
     pp = [2 ** 16, 2 ** 32, 2 ** 63, 3 ** 20, 3 ** 40, 5 ** 27, 10 ** 9, 10 ** 19, 1000, 3600]
     fact = [479001600, 614889782588491410]
     near = [2 ** 16 + 1, 2 ** 32 - 1, 2 ** 32 + 1, 2 ** 64 - 1]
-    semi = [541 * 547, 65521 * 65537, 65537 ** 2, 65537 * 2147483647]
+    semi = [541 * 547, 65521 * 65537, 65537 ** 2, 65537 * 2147483647, 547 * 563 * 677]
     if tier == "thorough":
         pp += [2 ** 8, 2 ** 31, 2 ** 33, 2 ** 48, 2 ** 62, 5 ** 13, 7 ** 11, 7 ** 22, 11 ** 18, 13 ** 17,
                10 ** 6, 10 ** 12, 10 ** 18, 1024, 86400, 1852, 5280, 25400, 1609344, 45359237]
@@ -547,7 +680,82 @@ def magjson_expected(m):
     return [[str(p), e, 1] for p, e in sorted(meta_factor(m).items())]
 
 
-def ct_records(tier):
+def spelled(f):
+    """The canonical type spelled by hand from a factorisation {p: e}: ascending primes, a bare
+    au::Prime<p> for exponent 1 (what SimplifyBasePowersT leaves), au::Pow<au::Prime<p>, e> otherwise."""
+    return "au::Magnitude<%s>" % ", ".join(
+        "au::Prime<%dULL>" % q if e == 1 else "au::Pow<au::Prime<%dULL>, %d>" % (q, e)
+        for q, e in sorted(f.items()))
+
+
+def py_sprp(n, a):
+    d, s_ = n - 1, 0
+    while d % 2 == 0:
+        d //= 2
+        s_ += 1
+    x = pow(a, d, n)
+    if x in (1, n - 1):
+        return True
+    for _ in range(s_ - 1):
+        x = x * x % n
+        if x == n - 1:
+            return True
+    return False
+
+
+def _prime_near(n, step):
+    n += step
+    while not py_is_prime(n):
+        n += step
+    return n
+
+
+def ct_prime_numbers(extra=()):
+    """Adversarial inputs for is_prime / find_prime_factor *in constant evaluation*, all constructed here by
+    big-int searches (nothing is taken on trust; every verdict comes from py_is_prime at judging time)."""
+    T32, T63, T64 = 2 ** 32, 2 ** 63, 2 ** 64
+    out = [0, 1, 2, 3, 4, 9, 25, 541, 547, 541 * 541, 541 * 547, 547 * 547, 547 * 563 * 677,
+           561, 1729, 2 ** 31 - 1, 2 ** 61 - 1, T32 + 1, T64 - 1, T63, 3215031751, 3825123056546413051]
+    p64a = _prime_near(T64, -1)
+    out += [p64a, _prime_near(p64a, -1), _prime_near(T63, -1), _prime_near(T63, 1),
+            _prime_near(T32, -1), _prime_near(T32, 1)]
+    q32, q31 = _prime_near(T32, -1), _prime_near(2 ** 31, 1)
+    out += [q32 * q32, q31 * q31, 65537 ** 2, q32 * _prime_near(q32, -1), q32 * q31]
+    k = int(round((T64 / 1296.0) ** (1.0 / 3))) + 2          # largest Carmichael (6k+1)(12k+1)(18k+1) < 2^64
+    while True:
+        n = (6 * k + 1) * (12 * k + 1) * (18 * k + 1)
+        if n < T64 and all(py_is_prime(x) for x in (6 * k + 1, 12 * k + 1, 18 * k + 1)):
+            out.append(n)
+            break
+        k -= 1
+    got = 0                                                   # smallest base-2 strong pseudoprimes
+    n = 9
+    while got < 3:
+        if py_sprp(n, 2) and not py_is_prime(n):
+            out.append(n)
+            got += 1
+        n += 2
+    out += [w * w for w in (1093, 3511) if py_sprp(w * w, 2)]  # Wieferich squares: spsp(2) and perfect squares
+    got, q = 0, 2 ** 31                                       # 64-bit base-2 strong pseudoprimes p*(2p-1)
+    while got < 2:
+        q = _prime_near(q, 1)
+        if py_is_prime(2 * q - 1) and py_sprp(q * (2 * q - 1), 2):
+            out.append(q * (2 * q - 1))
+            got += 1
+    out += [int(x) for x in extra]
+    res = []
+    for n in out:
+        if 0 <= n < T64 and n not in res:
+            res.append(n)
+    return res
+
+
+def _cheap_to_factor(n):
+    """find_prime_factor(n) stays light in constant evaluation: prime, a factor <= 541, or n < 2^40."""
+    return n > 1 and (n < 2 ** 40 or py_is_prime(n) or any(n % q == 0 for q in range(2, 542)))
+
+
+def ct_records(tier, extra=()):
     pool = ct_pool(tier)
     nums = sorted(pool)
     recs, meta = [], {}
@@ -556,7 +764,8 @@ def ct_records(tier):
     T = lambda n: "decltype(au::mag<%dULL>())" % n
     for n in nums:
         st = ['vf_kv("mag", vf::MagJson<%s>::get());' % T(n),
-              'vf_b("ne_next", %s == %s);' % (M(n), M(n + 1 if n + 1 < 2 ** 64 else n - 1))]
+              'vf_b("ne_next", %s == %s);' % (M(n), M(n + 1 if n + 1 < 2 ** 64 else n - 1)),
+              'vf_b("spelled", std::is_same<%s, %s>::value);' % (T(n), spelled(py_factor(n)))]
         if n * n < 2 ** 64:
             st.append('vf_b("sq", au::pow<2>(%s) == %s);' % (M(n), M(n * n)))
         recs.append((rid, st))
@@ -570,27 +779,56 @@ def ct_records(tier):
             if a not in core_nums and b not in core_nums:
                 continue        # thorough: every grid number is paired with every core number
             ab = a * b
-            st = ['vf_b("prod", %s * %s == %s);' % (M(a), M(b), M(ab)),
-                  'vf_b("same", std::is_same<decltype(%s * %s), %s>::value);' % (M(a), M(b), T(ab)),
-                  'vf_b("comm", std::is_same<decltype(%s * %s), %s>::value);' % (M(b), M(a), T(ab)),
-                  'vf_b("quot", %s / %s == %s);' % (M(ab), M(b), M(a)),
-                  'vf_kv("mag", vf::MagJson<%s>::get());' % T(ab)]
-            recs.append((rid, st))
             meta[rid] = {"kind": "pair", "a": a, "b": b, "n": ab,
                          "heavy": "heavy" in (pool[a], pool[b])}
             f = meta_factor(meta[rid])
+            st = ['vf_b("prod", %s * %s == %s);' % (M(a), M(b), M(ab)),
+                  'vf_b("same", std::is_same<decltype(%s * %s), %s>::value);' % (M(a), M(b), T(ab)),
+                  'vf_b("comm", std::is_same<decltype(%s * %s), %s>::value);' % (M(b), M(a), T(ab)),
+                  'vf_b("spelled", std::is_same<decltype(%s * %s), %s>::value);' % (M(a), M(b), spelled(f)),
+                  'vf_b("quot", %s / %s == %s);' % (M(ab), M(b), M(a)),
+                  'vf_kv("mag", vf::MagJson<%s>::get());' % T(ab)]
+            recs.append((rid, st))
             if sum(e for p, e in f.items() if p > 2 ** 20) >= 2:
                 meta[rid]["heavy"] = True
             rid += 1
+    # is_prime / find_prime_factor forced into constant evaluation (template arguments)
+    for n in ct_prime_numbers(extra):
+        st = ['vf_b("ct_prime", std::integral_constant<bool, au::detail::is_prime(%dULL)>::value);' % n]
+        fac = _cheap_to_factor(n)
+        if fac:
+            st.append('vf_s("ct_factor", std::to_string(std::integral_constant<std::uintmax_t, '
+                      'au::detail::find_prime_factor(%dULL)>::value));' % n)
+        recs.append((rid, st))
+        meta[rid] = {"kind": "ctp", "n": n, "factor": fac, "heavy": False}
+        rid += 1
     return recs, meta
 
 
 def ct_judge(meta, o):
     """-> list of (what-failed) for one observed record."""
     bad = []
+    if meta["kind"] == "ctp":
+        n = meta["n"]
+        if o.get("ct_prime") is not py_is_prime(n):
+            bad.append("au::detail::is_prime(%d) in constant evaluation gave %s, n is %s (12-base Miller-Rabin)"
+                       % (n, o.get("ct_prime"), "prime" if py_is_prime(n) else "composite"))
+        if meta["factor"]:
+            try:
+                f = int(o.get("ct_factor"))
+            except (TypeError, ValueError):
+                f = 0
+            if not (f > 1 and n % f == 0 and py_is_prime(f)):
+                bad.append("au::detail::find_prime_factor(%d) in constant evaluation gave %s, not a prime "
+                           "divisor" % (n, o.get("ct_factor")))
+        return bad
     if o.get("mag") != magjson_expected(meta):
         bad.append("mag<%d>() read out as %s, canonical factorisation is %s" % (
             meta["n"], json.dumps(o.get("mag")), json.dumps(magjson_expected(meta))))
+    if o.get("spelled") is not True:
+        bad.append("the type of %s is not the hand-spelled canonical type %s" % (
+            "mag<%d>()" % meta["n"] if meta["kind"] == "single" else
+            "mag<%d>()*mag<%d>()" % (meta["a"], meta["b"]), spelled(meta_factor(meta))))
     if meta["kind"] == "single":
         if o.get("ne_next") is not False:
             bad.append("mag<%d>() compares equal to the magnitude of a neighbouring integer" % meta["n"])
@@ -606,59 +844,240 @@ def ct_judge(meta, o):
     return bad
 
 
-def explore_ct(run, tier):
-    recs, meta = ct_records(tier)
+# Diagnostics of a record that does not compile.  Only exhausted constexpr / template budgets are outside
+# the statement ("whenever it compiles" cannot excuse a static_assert of the library firing on a number
+# below 2^64); everything else is a hard error = lost domain = violation.
+BUDGET_RE = re.compile(r"-fconstexpr-(ops-limit|loop-limit|depth)|-ftemplate-depth|hit maximum step limit|"
+                       r"exceeded maximum depth")
+# (the static_assert *failed*; the bare message text also shows up in g++'s source-line echo when the
+# condition merely is non-constant because a budget ran out, which must stay don't-care)
+HARD_RE = re.compile(r"(static assertion failed|static_assert failed)[^\n]*"
+                     r"(Prime<N> requires that N is prime|Ill-formed Magnitude|Bases must be listed in "
+                     r"ascending order|All powers must be nonzero|Can only factor positive integers)")
+
+
+def ct_classify(err):
+    """-> ('ok'|'budget'|'hard', one-line diagnostic)"""
+    first = core._first_error(err)
+    if not first:
+        return "ok", ""
+    h = HARD_RE.search(err)
+    if h:
+        return "hard", "%s  [%s]" % (h.group(2), first[:200])
+    if BUDGET_RE.search(err):
+        return "budget", first[:200]
+    return "hard", first[:260]
+
+
+CT_TIMEOUT = 150       # s; one compile of the compile-time grid (a chunk of 40 takes 5-10 s on an idle box)
+
+
+def sh_group(cmd, timeout):
+    """core.sh in its own process group, the whole group (driver + cc1) killed on timeout.
+    -> (rc, stdout, stderr); rc = None on timeout."""
+    p = subprocess.Popen(cmd, stdout=subprocess.PIPE, stderr=subprocess.PIPE, start_new_session=True)
+    try:
+        out, err = p.communicate(timeout=timeout)
+    except subprocess.TimeoutExpired:
+        try:
+            os.killpg(p.pid, signal.SIGKILL)
+        except OSError:
+            pass
+        p.communicate()
+        return None, "", ""
+    return p.returncode, out.decode("utf-8", "replace"), err.decode("utf-8", "replace")
+
+
+def errlim(cfg):
+    # g++ gives the reason of a non-constant condition (e.g. the exhausted budget) as a second error
+    return "-ferror-limit=1" if cfg.is_clang else "-fmax-errors=3"
+
+
+def ct_diagnose(cfg, src, pch=True):
+    """Why does this TU not compile?  First under the compilers' *default* constexpr budgets, first error
+    only (after a hard error, error recovery can send constant evaluation into a runaway loop that only the
+    2e9-step raised budget ends, minutes later): a hard diagnostic there is final.  Only if the default
+    budgets are what stops it, once more under the raised budgets with a time limit.
+    -> ('ok'|'budget'|'hard', one-line diagnostic)"""
+    inc = ["-I" + core.AU_INC, "-I" + core.HARNESS]
+    if pch:     # the all-headers prefix as text (the PCH itself is tied to the raised-budget flags)
+        inc += ["-I" + core.pch_dir(cfg, sweep34.cflags(cfg)), "-include", "all.hh"]
+    base = [cfg.cxx, "-std=" + cfg.std, "-w"] + inc
+    rc, out, err = sh_group(base + ["-fsyntax-only", errlim(cfg), src], CT_TIMEOUT)
+    if rc is None:
+        return "budget", "no verdict within %d s under the default constexpr budgets" % CT_TIMEOUT
+    c, diag = ct_classify(err if rc != 0 else "")
+    if c != "budget":
+        return c, diag
+    cmd = (core.cc_cmd(cfg, sweep34.cflags(cfg)) if pch else base + sweep34.cflags(cfg))
+    rc, out, err = sh_group(cmd + ["-fsyntax-only", errlim(cfg), src], CT_TIMEOUT)
+    if rc is None:
+        return "budget", "no verdict within %d s under the raised constexpr budgets" % CT_TIMEOUT
+    return ct_classify(err if rc != 0 else "")
+
+
+def ct_compile_alone(cfg, rec, wd, tag):
+    src = os.path.join(wd, "%s_%s_%d.cc" % (tag, cfg.name, rec[0]))
+    psx.emit_dump(src, [rec], "")
+    return ct_diagnose(cfg, src)
+
+
+def ct_key(m, cfg, hard=False):
+    if m["kind"] == "ctp":
+        return "C12:%s:n=%d:cfg=%s" % ("ct-hard-error" if hard else "ct-eval", m["n"], cfg.name)
+    return "C12:%s:n=%d:a=%s:b=%s:cfg=%s" % ("mag-hard-error" if hard else "mag:" + m["kind"], m["n"],
+                                              m.get("a", ""), m.get("b", ""), cfg.name)
+
+
+def ct_dump(cfg, records, wd, tag, chunk=40):
+    """Like psx.run_dump, but a chunk that does not compile is not bisected: each of its records is
+    compiled alone once (syntax only, full diagnostics, classified), the ones that compile are then
+    observed together.  Bounded work even when most records fail.  -> (results, {rid: (class, diag)})"""
+    os.makedirs(wd, exist_ok=True)
+    flags = sweep34.cflags(cfg)
+    core.pch_dir(cfg, flags)
+    src0 = os.path.join(wd, "%s_%s_preamble.cc" % (tag, cfg.name))
+    psx.emit_dump(src0, [], "")
+    rc0, err0 = core.syntax_check(cfg, src0, list(flags))
+    if rc0 != 0:
+        raise core.InfraError("dump preamble does not compile under %s:\n%s" % (cfg, err0[:3000]))
+
+    def attempt(recs, name):
+        src = os.path.join(wd, "%s_%s_%s.cc" % (tag, cfg.name, name))
+        exe = src[:-3]
+        psx.emit_dump(src, recs, "")
+        rc, out, err = sh_group(core.cc_cmd(cfg, flags) + [errlim(cfg), src, "-o", exe],
+                                CT_TIMEOUT * (1 if len(recs) > 1 else 4))
+        if rc != 0:         # (None: no verdict in time -> decided record by record below)
+            return None
+        rc, out, err2 = core.sh([exe], timeout=600)
+        if rc != 0:
+            raise core.InfraError("dump binary failed rc=%d: %s\n%s" % (rc, exe, err2[-2000:]))
+        res = {}
+        for line in out.split("\n"):
+            if line.startswith("{"):
+                o = json.loads(line)
+                res[o["id"]] = o
+        try:
+            os.remove(exe)
+        except OSError:
+            pass
+        return res
+
+    def solve(kc):
+        k, recs = kc
+        res = attempt(recs, "c%d" % k)
+        if res is not None:
+            return res, {}
+        good, failed = [], {}
+        for rec in recs:
+            c, diag = ct_compile_alone(cfg, rec, wd, tag + "1")
+            if c == "ok":
+                good.append(rec)
+            else:
+                failed[rec[0]] = (c, diag)
+        res = attempt(good, "c%dg" % k) if good else {}
+        if res is None and len(recs) == 1:      # (a heavy record: no verdict in time under the raised budgets)
+            return {}, {recs[0][0]: ("budget", "no verdict within %d s" % (4 * CT_TIMEOUT))}
+        if res is None:     # every record compiles alone but not together: resources, not the library
+            raise core.InfraError("compile-time chunk %s/%d compiles record by record but not as a whole on %s"
+                                  % (tag, k, cfg))
+        return res, failed
+
+    chunks = [records[i:i + chunk] for i in range(0, len(records), chunk)]
+    results, failed = {}, {}
+    for r, f in core.pmap(solve, list(enumerate(chunks))):
+        results.update(r)
+        failed.update(f)
+    return results, failed
+
+
+def explore_ct(run, tier, extra=()):
+    recs, meta = ct_records(tier, extra)
     cfgs = core.CORNERS if tier == "quick" else core.CFG6
     qrecs = set(r[0] for r in recs) if tier == "quick" else None
     if qrecs is None:
         # the four middle configurations get the core sub-grid only
         corenums = set(ct_pool("quick"))
         qrecs = set(rid for rid, m in meta.items()
-                    if (m["kind"] == "single" and m["n"] in corenums) or
+                    if (m["kind"] == "single" and m["n"] in corenums) or m["kind"] == "ctp" or
                     (m["kind"] == "pair" and m["a"] in corenums and m["b"] in corenums))
-    cov = {"ct_records": len(recs), "ct_configs": [c.name for c in cfgs], "ct_not_compiling": {}}
+    cov = {"ct_records": len(recs), "ct_configs": [c.name for c in cfgs], "ct_not_compiling": {},
+           "ct_constant_evaluation_inputs": sum(1 for m in meta.values() if m["kind"] == "ctp"),
+           "ct_hard_errors": 0, "ct_budget_dont_care": 0}
     evals = nontriv = 0
     sample = []
+    byrid = dict(recs)
+    ctwd = os.path.join(run.wd, "ct")
+
     def one(cfg):
         if run.time_left() < 240 and cfg is not cfgs[0]:
-            return cfg, None, None
+            return cfg, None, None, None
         mine = recs if cfg in core.CORNERS else [r for r in recs if r[0] in qrecs]
         light = [r for r in mine if not meta[r[0]]["heavy"]]
         heavy = [r for r in mine if meta[r[0]]["heavy"]]
-        res, failed = psx.run_dump(cfg, light, os.path.join(run.wd, "ct"), "ct",
-                                   flags=sweep34.cflags(cfg), chunk=40)
-        nlight = len(res)
+        # two stages, so that a number that is lost (its single record does not compile) is diagnosed once
+        # instead of dragging every pair record that mentions it through the bisection
+        stage1 = [r for r in light if meta[r[0]]["kind"] != "pair"]
+        res, cls = ct_dump(cfg, stage1, ctwd, "ct")
+        lost = set(meta[rid]["n"] for rid in cls if meta[rid]["kind"] == "single")
+        stage2 = [r for r in light if meta[r[0]]["kind"] == "pair" and
+                  not lost & {meta[r[0]]["a"], meta[r[0]]["b"], meta[r[0]]["n"]}]
+        r1, c1 = ct_dump(cfg, stage2, ctwd, "ctq")
+        res.update(r1)
+        cls.update(c1)
+        nskip = len(light) - len(stage1) - len(stage2)
+        nlight = len(res) + nskip
         if heavy and tier == "thorough" and cfg in (core.GXX14, core.CLANG20):
-            r2, f2 = psx.run_dump(cfg, heavy, os.path.join(run.wd, "ct"), "cth",
-                                  flags=sweep34.cflags(cfg), chunk=1)
+            r2, c2 = ct_dump(cfg, heavy, ctwd, "cth", chunk=1)
             res.update(r2)
-            failed.update(f2)
-        if nlight < 0.9 * len(light):
+            cls.update(c2)
+        failed = dict((rid, c[1]) for rid, c in cls.items())
+        if nlight < 0.9 * len(light) and not any(c[0] == "hard" for c in cls.values()):
             raise core.InfraError("vacuity guard: only %d of %d compile-time records compiled on %s; %s"
                                   % (nlight, len(light), cfg, list(failed.items())[:2]))
-        return cfg, res, failed
+        return cfg, res, failed, (cls, nskip)
 
-    byrid = dict(recs)
-    for cfg, res, failed in core.pmap(one, cfgs, workers=3):
+    for cfg, res, failed, cls in core.pmap(one, cfgs, workers=3):
+        if res is not None:
+            cls, nskip = cls
+            cov["ct_pair_records_skipped_operand_lost"] = cov.get("ct_pair_records_skipped_operand_lost", 0) + nskip
         if res is None:
             cov.setdefault("ct_configs_skipped_for_deadline", []).append(cfg.name)
             continue
-        # "whenever it compiles": records that do not compile are outside the statement (counted)
         cov["ct_not_compiling"][cfg.name] = [
-            {"n": str(meta[r]["n"]), "kind": meta[r]["kind"], "diag": d[:160]}
-            for r, d in sorted(failed.items())][:12]
+            {"n": str(meta[r]["n"]), "kind": meta[r]["kind"], "class": cls.get(r, ("unclassified", ""))[0],
+             "diag": cls.get(r, ("", d))[1][:160]} for r, d in sorted(failed.items()) if r not in res][:12]
+        for rid, (c, diag) in sorted(cls.items()):
+            m = meta[rid]
+            if c == "budget":
+                cov["ct_budget_dont_care"] += 1
+            if c != "hard":
+                continue
+            cov["ct_hard_errors"] += 1
+            key = ct_key(m, cfg, hard=True)
+            what = ("%s does not compile although n = %d < 2^64 (not a constexpr budget limit): %s [%s]" % (
+                "mag<%d>()" % m["n"] if m["kind"] == "single" else
+                "is_prime/find_prime_factor(%d) in constant evaluation" % m["n"] if m["kind"] == "ctp" else
+                "mag<%d>()*mag<%d>() / mag<%d>()" % (m["a"], m["b"], m["n"]), m["n"], diag, cfg.name))
+            rp = run.write_replay(key, {"kind": "ct", "hard": True, "cfg": [cfg.cxx, cfg.std], "meta": m,
+                                        "record": byrid[rid], "what": what})
+            run.violation(key, what, rp)
         for rid, o in sorted(res.items()):
             evals += len(o) - 1
             for what in ct_judge(meta[rid], o):
                 m = meta[rid]
-                key = "C12:mag:%s:n=%d:a=%s:b=%s:cfg=%s" % (m["kind"], m["n"], m.get("a", ""),
-                                                            m.get("b", ""), cfg.name)
+                key = ct_key(m, cfg)
                 rp = run.write_replay(key, {"kind": "ct", "cfg": [cfg.cxx, cfg.std], "meta": m,
                                             "record": byrid[rid], "what": what})
                 run.violation(key, what + " [%s]" % cfg.name, rp)
         nontriv += sum(1 for rid, o in res.items() if meta[rid]["kind"] == "single")
+        ctp = [o["ct_prime"] for rid, o in res.items() if meta[rid]["kind"] == "ctp"]
+        nontriv += 1 if (True in ctp and False in ctp) else 0
         if not sample:
             sample = [{"n": str(meta[r]["n"]), "observed": res[r]} for r in sorted(res)[40:44]]
+            sample += [{"n": str(meta[r]["n"]), "observed": res[r]} for r in sorted(res)
+                       if meta[r]["kind"] == "ctp"][-3:]
     cov["ct_samples"] = sample
     cov["ct_evaluated_static_facts"] = evals
     # F11 observation at compile time (evidence only: "whenever it compiles" puts it outside the text)
@@ -672,10 +1091,69 @@ def explore_ct(run, tier):
     return cov, evals, nontriv
 
 
+NOPCH_TU = ('#include "au/magnitude.hh"\n#include <type_traits>\n'
+            'static_assert(std::is_same<decltype(au::mag<%dULL>()), %s>::value, "C12-SPELLED-MISMATCH");\n'
+            'int main() { return 0; }\n')
+
+
+def nopch_compile(cfg, text, path):
+    """-> (class, diag, stderr-ish) of a TU on au/magnitude.hh alone (see ct_diagnose)."""
+    with open(path, "w") as f:
+        f.write(text)
+    return ct_diagnose(cfg, path, pch=False)
+
+
+def explore_ct_nopch(run, tier, reason):
+    """Fallback when the all-headers PCH / dump preamble no longer builds (e.g. a unit header's own
+    mag<N>() trips Prime<N>'s static_assert): mag<n>() of every core grid number as its own TU on
+    au/magnitude.hh alone, diagnostics classified as in explore_ct.  Returns None when even the control TU
+    (au::Magnitude<> without any factorisation) does not compile: then it is an infrastructure problem."""
+    wd = os.path.join(run.wd, "ctn")
+    os.makedirs(wd, exist_ok=True)
+    cfgs = core.CORNERS
+    for cfg in cfgs:
+        c, diag = nopch_compile(cfg, '#include "au/magnitude.hh"\nusing C12Control = au::Magnitude<>;\n'
+                                     'int main() { return 0; }\n', os.path.join(wd, "control_%s.cc" % cfg.name))
+        if c != "ok":
+            return None
+    nums = sorted(n for n, w in ct_pool("quick").items() if w == "light")
+    jobs = [(cfg, n) for cfg in cfgs for n in nums]
+
+    def one(j):
+        cfg, n = j
+        text = NOPCH_TU % (n, spelled(py_factor(n)))
+        c, diag = nopch_compile(cfg, text, os.path.join(wd, "n_%s_%d.cc" % (cfg.name, n)))
+        if c == "hard" and "C12-SPELLED-MISMATCH" in diag and not HARD_RE.search(diag):
+            return cfg, n, text, "spelled", "decltype(mag<%d>()) is not %s" % (n, spelled(py_factor(n)))
+        return cfg, n, text, c, diag
+
+    cov = {"ct_fallback_without_pch": reason[-300:], "ct_fallback_numbers": len(nums),
+           "ct_hard_errors": 0, "ct_budget_dont_care": 0}
+    for cfg, n, text, c, diag in core.pmap(one, jobs):
+        if c == "budget":
+            cov["ct_budget_dont_care"] += 1
+        if c not in ("hard", "spelled"):
+            continue
+        cov["ct_hard_errors"] += c == "hard"
+        key = "C12:%s:n=%d:a=:b=:cfg=%s" % ("mag-hard-error" if c == "hard" else "mag:single", n, cfg.name)
+        what = ("mag<%d>() does not compile although n < 2^64 (not a constexpr budget limit): %s [%s]" % (
+            n, diag, cfg.name)) if c == "hard" else diag + " [%s]" % cfg.name
+        rp = run.write_replay(key, {"kind": "ct", "nopch": True, "cfg": [cfg.cxx, cfg.std], "src": text,
+                                    "n": n, "what": what})
+        run.violation(key, what, rp)
+    return cov, len(jobs), 0
+
+
 def replay_ct(r):
     cfg = core.Cfg(r["cfg"][0], r["cfg"][1])
     wd = os.path.join(core.BUILD, "C12", "replay")
     os.makedirs(wd, exist_ok=True)
+    if r.get("nopch"):
+        c, diag = nopch_compile(cfg, r["src"], os.path.join(wd, "rp_nopch.cc"))
+        return [diag] if c == "hard" else []
+    if r.get("hard"):
+        c, diag = ct_compile_alone(cfg, (0, r["record"]), wd, "rph")
+        return [diag] if c == "hard" else []
     res, failed = psx.run_dump(cfg, [(0, r["record"])], wd, "rp", flags=sweep34.cflags(cfg), chunk=1)
     if 0 not in res:
         print("record does not compile on the current tree (outside the statement): %s" % failed)
